@@ -30,7 +30,7 @@ func init() {
 		"core.XRefParser.parseXRefStream", "core.ObjectStream.GetObjectByIndex"}
 	props["C04"] = propInfo{
 		level:     "exploration",
-		quickRuns: 6000, chunk: 100, thoroughS: 600, thoroughMax: 50000000,
+		quickRuns: 12000, chunk: 100, thoroughS: 600, thoroughMax: 50000000,
 		rule: "indices below the size of the small space enumerate it exhaustively: n=2 object numbers, r<=2 revisions (quick) or r<=3 (thorough), every assignment of {untouched, set plainly, set in an object stream, delete} per object and revision, every legal cross-reference kind sequence, each with a seeded canonical lookup history (all numbers incl. never-defined ones and 0, cache clear, mixed get/xref/resolve/deep, all numbers again). Beyond that, run i draws n<=12 objects, r<=5 revisions of add/replace/delete with unique tagged values (ints, reals, strings, names, arrays, dicts, streams with direct or indirect /Length, the length object optionally in an object stream), table/stream history (never table after stream), containers optionally repacked and freed later, and per-revision lookup histories of 3-40 steps over get/resolve/deep/xref/resolver lookups with repeats, cache clears and reopen; 25% of the sampled runs put a simulated object source between resolver.ObjectResolver and the reader that fails chosen lookups once. Non-trivial = more than one revision or any storage feature; distinct = distinct (revision plan, history).",
 		assume: []string{
 			"the independent writer's files are well formed; every written value is unique so each successful lookup is attributable to one write",
